@@ -55,3 +55,39 @@ def witness(base_cfg, inv_name, module=MC_MODULE):
         with open(cp, "w") as f:
             json.dump(r, f, indent=1)
     return r
+
+
+def run_simulate(name, seconds, seed=1, module=MC_MODULE, depth=250):
+    """random simulation of a configuration too large to enumerate (monitors folded in); runs for about `seconds'
+    and reports how many states / traces were checked; a violated invariant is an error like in run_config"""
+    import subprocess
+    import time
+    cp = _cache_path("sim.%s.%d.%d" % (name, seconds, seed))
+    if os.path.exists(cp):
+        with open(cp) as f:
+            r = json.load(f)
+        r["cached"] = True
+        return r
+    metadir = vlib.ensure(os.path.join(vlib.WORK, "meta", "sim." + name))
+    cmd = vlib.java_cmd("8g", True) + ["-workers", str(max(2, vlib.NCPU // 2)), "-noGenerateSpecTE", "-metadir", metadir, "-seed", str(seed),
+                                       "-simulate", "num=1000000", "-depth", str(depth), "-config", name + ".cfg", module]
+    t0 = time.time()
+    try:
+        r = subprocess.run(["timeout", str(int(seconds))] + cmd, cwd=vlib.SPEC, stdout=subprocess.PIPE, stderr=subprocess.STDOUT, universal_newlines=True)
+        out = r.stdout
+    finally:
+        import shutil
+        shutil.rmtree(metadir, ignore_errors=True)
+    res = {"config": name, "secs": round(time.time() - t0, 1), "states_checked": 0, "traces": 0, "violated": None, "ok": True}
+    for mm in re.finditer(r"Progress: (\d+) states checked, (\d+) traces generated", out):
+        res["states_checked"], res["traces"] = int(mm.group(1)), int(mm.group(2))
+    mm = re.search(r"Invariant (\w+) is violated", out)
+    if mm:
+        res["violated"], res["ok"] = mm.group(1), False
+        res["counterexample"] = out[-6000:]
+    elif "Error:" in out:
+        res["ok"] = False
+        res["error"] = out[-2000:]
+    with open(cp, "w") as f:
+        json.dump(res, f, indent=1)
+    return res
